@@ -46,7 +46,8 @@ def check_reshuffle(ctx, res: Result):
     outs = []
     for e in rets[0].value.elts:
         # (through `new_f1 = tuple(sorted(g1))`-style temporaries: the accumulator is the list that is appended to)
-        names = [x.id for x in ast.walk(v.inline(e)) if isinstance(x, ast.Name) and x.id not in ("tuple", "sorted", "list")]
+        raw = [x.id for x in ast.walk(e) if isinstance(x, ast.Name) and x.id not in ("tuple", "sorted", "list")]
+        names = raw if len(raw) == 1 else [x.id for x in ast.walk(v.inline(e)) if isinstance(x, ast.Name) and x.id not in ("tuple", "sorted", "list")]
         outs.append(names[0] if len(names) == 1 else None)
     if None in outs:
         raise AnalysisError(f"{f}: returned pair not recognised")
@@ -72,6 +73,22 @@ def check_reshuffle(ctx, res: Result):
     # appends
     apps = [n for n in walk_no_nested(fi.node) if isinstance(n, ast.Call) and isinstance(n.func, ast.Attribute) and n.func.attr in ("append", "extend", "insert", "add") and isinstance(n.func.value, ast.Name) and n.func.value.id in outs]
     if not apps:
+        # outputs assembled from SLICES of one shuffled pool of the free nodes: `g1 = ix + free[:k]; g2 = ix + free[k:]`.  Each
+        # hyperedge keeps its size only when k is that hyperedge's own free capacity (len(f1) - len(ix)); a split point computed
+        # from the pool alone (`len(free) // 2`) averages the two sizes
+        sl = []
+        for g in outs:
+            for d in [n for n in walk_no_nested(fi.node) if isinstance(n, ast.Assign) and isinstance(n.targets[0], ast.Name) and n.targets[0].id == g]:
+                for x in ast.walk(d.value):
+                    if isinstance(x, ast.Subscript) and isinstance(x.slice, ast.Slice):
+                        sl.append((g, d, x))
+        if sl:
+            for g, d, x in sl:
+                bounds = [b for b in (x.slice.lower, x.slice.upper) if b is not None]
+                txt = " ".join(norm(v.inline(b, depth=3)) for b in bounds)
+                own = any(isinstance(y, ast.Call) and isinstance(y.func, ast.Name) and y.func.id == "len" and y.args and isinstance(y.args[0], ast.Name) and y.args[0].id in params for b in bounds for y in ast.walk(v.inline(b, depth=3)))
+                res.add("P-GUARDCAP", f, norm(d)[:80], g + ":capacity", "unknown" if own else "violation", "the split point mentions the hyperedges' own sizes; that each output keeps its size was not decided" if own else f"`{g}` receives the slice `{norm(x)[:40]}` of the shuffled free nodes, and the split point `{txt[:40]}` is computed from the pool alone: two hyperedges of different sizes come back with averaged sizes (a (2, 4) pair as (3, 3)) - the size sequence is not preserved", loc(fi, d))
+            return
         raise AnalysisError(f"{f}: no append to the outputs found")
     loops = {id(v.enclosing(a, (ast.For,))) for a in apps}
     loop = v.enclosing(apps[0], (ast.For,))
